@@ -11,6 +11,7 @@
    All are N.  A ResponseHandler is (request id, token): the token stands for the oneshot
    sender, i.e. for the caller that waits on the matching receiver. *)
 From SV Require Import Base.Prelude.
+From Coq Require Import FMapPositive.
 Open Scope N_scope.
 
 (* ---------------------------------------------------------------- generic association maps *)
@@ -30,6 +31,19 @@ Section AssocMap.
     end.
   Definition aput (k : N) (v : V) (m : list (N * V)) : list (N * V) := (k, v) :: arem k m.
 End AssocMap.
+
+(* The two HashMaps of ResponseHandlerMap (handlers, request_to_stream) are finite maps with the
+   same interface, represented as the standard library's binary tries (FMapPositive) so that
+   the extracted model can run the full 32768-id sequences; key k is stored at N.succ_pos k.
+   Again only [mget] is observable. *)
+Definition nmap (V : Type) : Type := PositiveMap.t V.
+Definition mkey (k : N) : positive := N.succ_pos k.
+Definition mempty {V : Type} : nmap V := PositiveMap.empty V.
+Definition mget {V : Type} (k : N) (m : nmap V) : option V := PositiveMap.find (mkey k) m.
+Definition mput {V : Type} (k : N) (v : V) (m : nmap V) : nmap V := PositiveMap.add (mkey k) v m.
+Definition mrem {V : Type} (k : N) (m : nmap V) : nmap V := PositiveMap.remove (mkey k) m.
+Definition melements {V : Type} (m : nmap V) : list (N * V) :=
+  map (fun e => (Pos.pred_N (fst e), snd e)) (PositiveMap.elements m).
 
 (* HashMap<i16, Instant> key set of the OrphanageTracker *)
 Definition smem (x : N) (l : list N) : bool := existsb (N.eqb x) l.
@@ -94,12 +108,12 @@ Definition wf_words (ws : list N) : Prop :=
 
 Record hmap := mk_hmap {
   hm_words : list N;                        (* stream_set.used_bitmap *)
-  hm_handlers : list (N * (N * N));         (* handlers: stream id -> (request id, token) *)
-  hm_r2s : list (N * N);                    (* request_to_stream *)
+  hm_handlers : nmap (N * N);               (* handlers: stream id -> (request id, token) *)
+  hm_r2s : nmap N;                          (* request_to_stream *)
   hm_orphans : list N                       (* orphanage_tracker.orphans (keys) *)
 }.
 
-Definition hm_new : hmap := mk_hmap sid_new [] [] [].
+Definition hm_new : hmap := mk_hmap sid_new mempty mempty [].
 
 Inductive alloc_res := AllocOk (sid : N) | AllocFull | AllocPanic.
 
@@ -108,9 +122,9 @@ Inductive alloc_res := AllocOk (sid : N) | AllocFull | AllocPanic.
 Definition hm_allocate (m : hmap) (rid tok : N) : hmap * alloc_res :=
   match sid_alloc (hm_words m) with
   | Some (sid, ws') =>
-      let m' := mk_hmap ws' (aput sid (rid, tok) (hm_handlers m)) (aput rid sid (hm_r2s m))
+      let m' := mk_hmap ws' (mput sid (rid, tok) (hm_handlers m)) (mput rid sid (hm_r2s m))
                         (hm_orphans m) in
-      match aget sid (hm_handlers m) with
+      match mget sid (hm_handlers m) with
       | None => (m', AllocOk sid)
       | Some _ => (m', AllocPanic)
       end
@@ -119,9 +133,9 @@ Definition hm_allocate (m : hmap) (rid tok : N) : hmap * alloc_res :=
 
 (* ResponseHandlerMap::orphan *)
 Definition hm_orphan (m : hmap) (rid : N) : hmap :=
-  match aget rid (hm_r2s m) with
+  match mget rid (hm_r2s m) with
   | Some sid =>
-      mk_hmap (hm_words m) (arem sid (hm_handlers m)) (arem rid (hm_r2s m))
+      mk_hmap (hm_words m) (mrem sid (hm_handlers m)) (mrem rid (hm_r2s m))
               (sadd sid (hm_orphans m))
   | None => m
   end.
@@ -134,19 +148,19 @@ Definition hm_lookup (m : hmap) (sid : N) : hmap * lookup_res :=
   if smem sid (hm_orphans m) then
     (mk_hmap ws (hm_handlers m) (hm_r2s m) (srem sid (hm_orphans m)), LOrphaned)
   else
-    match aget sid (hm_handlers m) with
+    match mget sid (hm_handlers m) with
     | Some (rid, tok) =>
-        (mk_hmap ws (arem sid (hm_handlers m)) (arem rid (hm_r2s m)) (hm_orphans m),
+        (mk_hmap ws (mrem sid (hm_handlers m)) (mrem rid (hm_r2s m)) (hm_orphans m),
          LHandler rid tok)
     | None => (mk_hmap ws (hm_handlers m) (hm_r2s m) (hm_orphans m), LMissing)
     end.
 
 (* ResponseHandlerMap::into_handlers *)
-Definition hm_into_handlers (m : hmap) : list (N * (N * N)) := hm_handlers m.
+Definition hm_into_handlers (m : hmap) : list (N * (N * N)) := melements (hm_handlers m).
 
 (* is the sender standing for [tok] still held by the map? (hook: is_pending) *)
 Definition hm_holds (m : hmap) (tok : N) : bool :=
-  existsb (fun e => snd (snd e) =? tok) (hm_handlers m).
+  existsb (fun e => snd (snd e) =? tok) (melements (hm_handlers m)).
 
 (* operation sequences for the state-machine tie *)
 Inductive op :=
@@ -402,3 +416,7 @@ Definition alloc_toks (ops : list op) : list N :=
   flat_map (fun o => match o with OpAlloc _ tok => [tok] | _ => [] end) ops.
 Definition sm_applicable (ops : list op) : bool :=
   nodupb (alloc_rids ops) && nodupb (alloc_toks ops).
+
+(* the reader calls lookup only with a non-negative i16 *)
+Definition op_in_range (o : op) : Prop :=
+  match o with OpLookup sid => sid < nids | _ => True end.
